@@ -625,6 +625,11 @@ func (ex *Exec) branch(st *State, cond *smt.Expr, apply func(s *State, taken boo
 
 func (ex *Exec) popFrame(st *State, rv Val) {
 	fr := st.top()
+	for id, w0 := range fr.NoAliasShared {
+		if o := st.Objs[id]; o != nil && o.Writes != w0 {
+			ex.fault(st, "noalias-violation", fmt.Sprintf("%s: object %s#%d was passed through two noalias parameters and modified during the call (undefined behaviour the optimiser may exploit)", fr.Fn.Name, o.Name, id), ex.C.True())
+		}
+	}
 	for _, id := range fr.Allocs {
 		o := st.wobj(id)
 		o.Live = false
@@ -736,6 +741,22 @@ func (ex *Exec) call(st *State, in *llread.Inst) []*State {
 		}
 	}
 	ex.pushFrame(st, fn, fixed, args[np:], in)
+	// noalias: the same object passed through two noalias parameters must not be modified during the call
+	if len(fn.NoAlias) == np {
+		seen := map[int]bool{}
+		for i := 0; i < np; i++ {
+			if fn.NoAlias[i] && fixed[i].Obj != 0 {
+				if seen[fixed[i].Obj] {
+					fr := st.top()
+					if fr.NoAliasShared == nil {
+						fr.NoAliasShared = map[int]int{}
+					}
+					fr.NoAliasShared[fixed[i].Obj] = st.Objs[fixed[i].Obj].Writes
+				}
+				seen[fixed[i].Obj] = true
+			}
+		}
+	}
 	return nil
 }
 
